@@ -30,3 +30,29 @@ Proof. intros H. rewrite !classify_ckinds, H. reflexivity. Qed.
 
 (* the token list the parser model is run on *)
 Definition parser_input (lt : Logos.table) (src : list N) : list tok := map classify (lex lt src).
+
+(* ---- a blank line in the source text ---- *)
+From Sylt Require Parse.BlankCtx Parse.BlankSim.
+
+Definition NLk : string * payload := ("Newline"%string, PNone).
+
+Lemma classify_NLk : classify_kp NLk = TK KNewline.
+Proof. reflexivity. Qed.
+
+Lemma BL_app_refl p : forall l l', BlankCtx.BL l l' -> BlankCtx.BL (p ++ l) (p ++ l').
+Proof. induction p as [|t p IH]; intros l l' H; [exact H|]. cbn [app]. constructor. apply IH. exact H. Qed.
+
+(* one more line break after a line break (or at the very start) in the kinds of all tokens: the parser's token
+   list has one more blank line *)
+Theorem blank_line_tokens (A B : list ptoken) K1 K2 :
+  ckinds A = (K1 ++ K2)%list -> ckinds B = (K1 ++ NLk :: K2)%list ->
+  (K1 = [] \/ exists K0, K1 = (K0 ++ [NLk])%list) ->
+  BlankSim.more_blank_lines (map classify A) (map classify B).
+Proof.
+  intros EA EB HK. rewrite !classify_ckinds, EA, EB, !map_app. cbn [map]. rewrite classify_NLk.
+  destruct HK as [->|(K0 & ->)].
+  - exists 1, (map classify_kp K2). cbn [map app repeat]. split; [reflexivity|apply BlankCtx.BL_refl].
+  - exists 0, ((map classify_kp (K0 ++ [NLk]) ++ TK KNewline :: map classify_kp K2)%list). split; [reflexivity|].
+    rewrite map_app. cbn [map]. rewrite classify_NLk, <- !app_assoc. apply BL_app_refl. cbn [app].
+    apply BlankCtx.BL_dup. apply BlankCtx.BL_refl.
+Qed.
